@@ -248,9 +248,18 @@ def run_inferred_dtype(ctx, byte):
                 except Exception as err:  # noqa: BLE001
                     ctx.fail(case, f"polynomial_from_attributes with dtypes {dts} raised {type(err).__name__}: {str(err)[:100]}", ["inferred", "raises"])
                     continue
-                if str(p.dtype) != ans["value"] or poisoned(p, byte):
+                # the specification is numpy's own promotion of all the coefficient types at once. numpy's n-ary promotion is
+                # not a left fold of the pairwise table (int8, uint16, complex64 -> complex64, pairwise complex128); the model's
+                # `inferDtype` is that fold, exact for one or two coefficient types - where it differs from numpy for three it
+                # is counted as drift of the model, never as a failure of the implementation
+                want = str(numpy.result_type(*[numpy.dtype(d) for d in dts]))
+                if ans["value"] != want:
+                    ctx.count("inferred-dtype.model-fold-differs-from-numpy-n-ary")
+                    if len(dts) <= 2:
+                        raise RuntimeError(f"Np.DT.inferDtype {ans['value']} != numpy.result_type {want} for {dts}")
+                if str(p.dtype) != want or poisoned(p, byte):
                     ctx.fail(case, f"coefficients of dtypes {dts} (all-zero: {zero}) under retain_coefficients={rc}: stored dtype {p.dtype}, "
-                                   f"the promotion of all of them is {ans['value']}", ["inferred", "dtype"])
+                                   f"numpy's promotion of all of them is {want}", ["inferred", "dtype"])
 
 
 def run_weak_scalars(ctx, byte):
